@@ -490,3 +490,96 @@ def r17_7_sign_predicates(ctx: Ctx) -> RuleResult:
             else:
                 rr.fail(f.qual, f"sign predicate `{unparse(pe)[:40]}` gives {bad[2]} for {tname} {bad[0]}={bad[1]}, which is {'non-negative' if bad[3] else 'negative'}: the sign written does not match the value", ctx.loc(f, c))
     return rr
+
+
+@rule("C17")
+def r17_8_variable_precision_predicates(ctx: Ctx) -> RuleResult:
+    """variable_precision_iso formats with the shortest of (full, hour:minute, hour) whose predicate accepts the value.  A pattern
+    without a field may only be chosen when that field is zero: the predicate of each alternative must test `== 0` for every
+    time component its pattern text has no field for (minute 'm', second 's', fraction 'F'/'f' -> nanosecond_of_second), or the
+    component is silently dropped and the text denotes another time."""
+    from ..kit import bind_args
+
+    rr = RuleResult("R17.8", "variable-precision ISO patterns: each alternative's predicate requires every component missing from its pattern text to be zero", min_instances=6)
+    M = ctx.M
+    builder_init = M.find_method(M.cls("CompositePatternBuilder"), "__init__")
+
+    def text_of(e: ast.expr, f) -> str | None:
+        if isinstance(e, ast.Attribute) and isinstance(e.value, ast.Name) and f.cls is not None:
+            g = M.find_method(f.cls, e.attr)
+            if g is not None:
+                for n in ast.walk(g.node):
+                    if isinstance(n, ast.Call) and isinstance(n.func, ast.Attribute) and n.func.attr == "create_with_invariant_culture" and n.args:
+                        v = M.fold(n.args[0], g.cls, g.mod)
+                        if isinstance(v, str):
+                            return v
+        return None
+
+    def atoms_of(pe: ast.expr, f) -> set[str] | None:
+        body = None
+        if isinstance(pe, ast.Lambda):
+            body, par = pe.body, pe.args.args[0].arg
+        elif isinstance(pe, ast.Name):
+            g = f.nested.get(pe.id)
+            if g is None:
+                return None
+            rets = [n.value for n in own_nodes(g.node) if isinstance(n, ast.Return) and n.value is not None]
+            if len(rets) != 1:
+                return None
+            body, par = rets[0], g.params[0].arg
+        if body is None:
+            return None
+        if isinstance(body, ast.Constant) and body.value is True:
+            return set()
+        conj = body.values if isinstance(body, ast.BoolOp) and isinstance(body.op, ast.And) else [body]
+        out = set()
+        for c in conj:
+            if isinstance(c, ast.Compare) and len(c.ops) == 1 and isinstance(c.ops[0], ast.Eq) and isinstance(c.comparators[0], ast.Constant) and c.comparators[0].value == 0 \
+                    and isinstance(c.left, ast.Attribute) and isinstance(c.left.value, ast.Name) and c.left.value.id == par:
+                out.add(c.left.attr)
+            else:
+                return None  # not a plain conjunction of `component == 0`
+        return out
+
+    for f in sorted(set(M.func_of_node.values()), key=lambda x: x.qual):
+        if isinstance(f.node, ast.Lambda) or not f.mod.rel.endswith(("_local_time_pattern.py", "_local_date_time_pattern.py")):
+            continue
+        for c in own_nodes(f.node):
+            if not (isinstance(c, ast.Call) and unparse(c.func).endswith("CompositePatternBuilder")):
+                continue
+            b = bind_args(c, builder_init) if builder_init is not None else {}
+            from ..kit import inline_locals
+
+            pats = inline_locals(f.node, b.get("patterns")) if b.get("patterns") is not None else None
+            preds = inline_locals(f.node, b.get("format_predicates")) if b.get("format_predicates") is not None else None
+            if not (isinstance(pats, ast.List) and isinstance(preds, ast.List) and len(pats.elts) == len(preds.elts)):
+                rr.inst()
+                rr.fail(f.qual, "CompositePatternBuilder call without matching literal pattern / predicate lists", ctx.loc(f, c))
+                continue
+            for pe, qe in zip(pats.elts, preds.elts):
+                rr.inst()
+                text = text_of(pe, f)
+                if text is None:
+                    rr.fail(f.qual, f"pattern text behind `{unparse(pe)}` not found", ctx.loc(f, c))
+                    continue
+                need = set()
+                if "m" not in text:
+                    need.add("minute")
+                if "s" not in text:
+                    need.add("second")
+                if "F" not in text and "f" not in text:
+                    need.add("nanosecond_of_second")
+                got = atoms_of(qe, f)
+                if got is None:
+                    if need:
+                        rr.fail(f.qual, f"predicate `{unparse(qe)[:60]}` for pattern {text!r} is not a conjunction of `component == 0` tests (not decided)", ctx.loc(f, c))
+                    else:
+                        rr.ok()
+                    continue
+                equiv = {"nanosecond_of_second": {"nanosecond_of_second", "nanosecond", "tick_of_second"}}
+                missing = {n for n in need if not (got & equiv.get(n, {n}))}
+                if missing:
+                    rr.fail(f.qual, f"pattern {text!r} has no field for {sorted(missing)} but its predicate `{unparse(qe)[:70]}` does not require them to be zero: they are dropped from the text", ctx.loc(f, c))
+                else:
+                    rr.ok({"pattern": text, "requires zero": sorted(need)})
+    return rr
